@@ -49,10 +49,11 @@ class Case:
 
 
 class Verdict:
-    __slots__ = ("status", "cls", "detail", "nontrivial", "key")
+    __slots__ = ("status", "cls", "detail", "nontrivial", "key", "noshrink")
 
-    def __init__(self, status, cls=None, detail=None, nontrivial=False, key=None):
+    def __init__(self, status, cls=None, detail=None, nontrivial=False, key=None, noshrink=False):
         self.status, self.cls, self.detail, self.nontrivial, self.key = status, cls, detail, nontrivial, key
+        self.noshrink = noshrink
 
 
 def parse_items(fields):
@@ -114,6 +115,10 @@ class PropCheck:
 
     def judge(self, case, ans):
         raise NotImplementedError
+
+    def post_checks(self, cases, res):
+        """checks across cases (e.g. all spellings of one query agree); yields (case, ans, Verdict)"""
+        return []
 
     def followups(self, case, ans):
         """second-phase cases derived from a first-phase answer (e.g. re-query a reported path)"""
@@ -241,6 +246,11 @@ class PropCheck:
                     violations.append((c, ans, v2))
             if len(self.samples) < 6 and v.nontrivial and self.rng.random() < 0.2:
                 self.samples.append(self.describe(c, ans))
+        for (c, ans, v) in self.post_checks(cases, res):
+            v.noshrink = True
+            self.count("verdict_" + v.status)
+            if v.status == "violation":
+                violations.append((c, ans, v))
         if not self.samples and cases:
             self.samples.append(self.describe(cases[0], res.get(cases[0].id, {})))
         # known findings: re-execute each listed witness
@@ -255,6 +265,8 @@ class PropCheck:
         for (c, ans, v) in violations[:3]:
             small = c
             try:
+                if v.noshrink:
+                    raise RuntimeError("no shrinking for cross-case verdicts")
                 sig0 = (v.detail or "")[:24]
                 small = self.shrink(c, lambda cc, aa: (lambda vv: vv.status == "violation" and (vv.detail or "")[:24] == sig0)(self.judge(cc, aa)))
                 sans = run_both([small]).get(small.id, ans)
